@@ -225,6 +225,76 @@ def simulate_and_replay(pid, rng, rep, n_inits, num, depth, seed):
     return n
 
 
+def pass_level_cases(rng, rep, n):
+    """modules with 1-3 operations through the real dart-scheduler pass: every dart.schedule must visit the iteration space of ITS operation"""
+    from snaxc.dialects import dart
+    from snaxc.ir.dart.affine_transform import AffineTransform
+    ID = "affine_map<(d0) -> (d0)>"
+    out = []
+    for k in range(n):
+        fam = rng.choice(["alu", "gemm"])
+        funcs, metas = [], []
+        for j in range(rng.choice([1, 2, 2, 3])):
+            if fam == "alu":
+                nn = rng.choice([4, 8, 16, 32, 64])
+                t = f"memref<{nn}xi64>"
+                funcs.append(f"""  func.func public @f{j}(%a : {t}, %b : {t}, %c : {t}) {{
+    "dart.operation"(%a, %b, %c) <{{patterns = [{ID}, {ID}, {ID}], accelerator = "snax_alu", operandSegmentSizes = array<i32: 2, 1>}}> ({{
+    ^bb0(%0 : !dart.stream<i64>, %1 : !dart.stream<i64>, %2 : !dart.stream<i64>):
+      %3 = "dart.generic"(%0, %1) <{{library_call = "snax_alu"}}> ({{
+      ^bb1(%x : i64, %y : i64, %z : i64):
+        %4 = kernel.add %x, %y : i64, i64 -> i64
+        dart.yield %4 : i64
+      }}) : (!dart.stream<i64>, !dart.stream<i64>) -> !dart.stream<i64>
+      dart.yield %3 : !dart.stream<i64>
+    }}) : ({t}, {t}, {t}) -> ()
+    func.return
+  }}""")
+                metas.append({"bounds": [nn], "pats": [{"A": [[1]], "b": [0]}] * 3})
+            else:
+                M, N, K = rng.choice([(8, 8, 8), (16, 8, 8), (8, 16, 8), (8, 8, 16), (16, 8, 16), (8, 24, 8)])
+                ts = [f"memref<{M}x{K}xi8>", f"memref<{K}x{N}xi8, strided<[1, {K}]>>", f"memref<{M}x{N}xi32>"]
+                funcs.append(f"""  func.func public @f{j}(%a : {ts[0]}, %b : {ts[1]}, %c : {ts[2]}) {{
+    "dart.operation"(%a, %b, %c) <{{patterns = [affine_map<(m, n, k) -> (m, k)>, affine_map<(m, n, k) -> (k, n)>, affine_map<(m, n, k) -> (m, n)>], accelerator = "snax_gemmx", operandSegmentSizes = array<i32: 2, 1>}}> ({{
+    ^bb0(%0 : !dart.stream<i8>, %1 : !dart.stream<i8>, %2 : !dart.stream<i32>):
+      %3 = "dart.generic"(%0, %1) <{{library_call = "snax_gemmx"}}> ({{
+      ^bb1(%x : i8, %y : i8, %z : i32):
+        %4 = kernel.mac %x, %y : i8, i8 -> i32
+        dart.yield %4 : i32
+      }}) : (!dart.stream<i8>, !dart.stream<i8>) -> !dart.stream<i32>
+      dart.yield %3 : !dart.stream<i32>
+    }}) : ({ts[0]}, {ts[1]}, {ts[2]}) -> ()
+    func.return
+  }}""")
+                metas.append({"bounds": [M, N, K], "pats": [{"A": [[1, 0, 0], [0, 0, 1]], "b": [0, 0]}, {"A": [[0, 0, 1], [0, 1, 0]], "b": [0, 0]},
+                                                            {"A": [[1, 0, 0], [0, 1, 0]], "b": [0, 0]}]})
+        text = "builtin.module {\n" + "\n".join(funcs) + "\n}\n"
+        acc = "snax_alu" if fam == "alu" else "snax_gemmx"
+        try:
+            m = repo.parse(text)
+            m.verify()
+        except Exception as e:
+            raise MachineryError(f"pass-level scheduler input invalid: {e}\n{text}")
+        try:
+            repo.run_pipeline(m, f"insert-accfg-op{{accelerator={acc}}},dart-scheduler")
+        except (NotImplementedError, RuntimeError, StopIteration):
+            rep.refused += 1
+            continue
+        except Exception as e:
+            rep.violation(f"pass:{k}", f"dart-scheduler raised {type(e).__name__}: {str(e)[:200]}", {"source": text})
+            continue
+        schs = [o for o in m.walk() if isinstance(o, dart.ScheduleOp)]
+        if len(schs) != len(metas):
+            rep.refused += 1
+            continue
+        for j, (sch, meta) in enumerate(zip(schs, metas)):
+            res = {"bounds": [b.value.data for b in sch.bounds.data],
+                   "pats": [{"A": [[int(x) for x in r] for r in AffineTransform.from_affine_map(p.data).A],
+                             "b": [int(x) for x in AffineTransform.from_affine_map(p.data).b]} for p in sch.patterns.data]}
+            out.append({"kind": "schedpair", "init": meta, "result": res, "name": f"pass:{k}#op{j}:{meta['bounds']}", "text": text})
+    return out
+
+
 def run(pid: str, tier: str, seed: int, selftest=False, replay=None) -> int:
     rep = Report(pid, tier, seed)
     known = KnownFindings()
@@ -291,6 +361,8 @@ def run(pid: str, tier: str, seed: int, selftest=False, replay=None) -> int:
                     continue
                 cases.append({"kind": "apistep", "init": rec, "act": act, "a": a, "b": b, "result": exp_sched(out),
                               "name": f"api:{act}:{a}:{b}:{json.dumps(rec)}"})
+    if pid == "C03":
+        cases += pass_level_cases(rng, rep, 40 if quick else 600)
     if pid == "C16":
         from snaxc.ir.dart.access_pattern import SchedulePattern, TemplatePattern
         from snaxc.ir.dart.affine_transform import AffineTransform
